@@ -154,6 +154,28 @@ Proof. repeat split; vm_compute; reflexivity. Qed.
 Example C14_pubkey_with_data_push : script_type (push_direct k33 ++ [x02; xac; x00]) = Ok TPubKey.
 Proof. vm_compute. reflexivity. Qed.
 
+(** Inspection is read-only and repeatable (model/AsmArena.v: the parts ToASM renders are Go slice values into the
+    caller's buffer and [append] writes in place while the capacity lasts): for every buffer, every list of windows
+    into it and both kinds of script, the buffer after rendering is the buffer before, the text is that of
+    model/Asm.v for the bytes the windows denote, and rendering again gives the same.  The examples show the
+    statement separates the code from a renderer that pads the part it was handed. *)
+From GoBT Require model.AsmArena proofs.AsmArenaProofs.
+Theorem C14_asm_rendering_read_only : forall data h parts,
+  fst (AsmArena.asm_parts_a data h parts) = h /\
+  snd (AsmArena.asm_parts_a data h parts) = asm_parts data (map (AsmArena.rd h) parts).
+Proof. intros. split; [apply AsmArenaProofs.asm_parts_a_read_only|apply AsmArenaProofs.asm_parts_a_value]. Qed.
+Print Assumptions C14_asm_rendering_read_only.
+Theorem C14_asm_rendering_repeatable : forall data h parts,
+  AsmArena.asm_parts_a data (fst (AsmArena.asm_parts_a data h parts)) parts = AsmArena.asm_parts_a data h parts.
+Proof. exact AsmArenaProofs.asm_parts_a_repeatable. Qed.
+Print Assumptions C14_asm_rendering_repeatable.
+Example C14_padding_in_place_is_not_read_only :
+  (snd (AsmArena.asm_parts_padding_in_place true AsmArenaProofs.demo_script AsmArenaProofs.demo_parts)
+   = snd (AsmArena.asm_parts_a true AsmArenaProofs.demo_script AsmArenaProofs.demo_parts)) /\
+  (fst (AsmArena.asm_parts_padding_in_place true AsmArenaProofs.demo_script AsmArenaProofs.demo_parts)
+   <> AsmArenaProofs.demo_script).
+Proof. split; [vm_compute; reflexivity|exact AsmArenaProofs.padding_in_place_not_read_only]. Qed.
+
 (** State inventory (tie, translator part): every Go struct the model of this property represents has, in the
     source as it is NOW (gen/Structs.v, regenerated on every run), exactly the fields - names, types, order - the
     model was written against (model/StateInventory.v).  New state in these objects (a memoised digest, a cached
